@@ -37,7 +37,7 @@ ASSUMPTIONS = [
     'during the hostile phase the harness is the peer: what the victim writes is read and ignored (two real Protocols would otherwise bounce an event named send for ever)',
     'a failing case is attributed to known findings only through neutralised twins; when several known triggers are present the smallest set of triggers whose neutralisation makes the case pass is used',
 ]
-REQUIRED = ['locally_fired_event_bound_to_the_peer', 'calls_executed_remotely', 'results_received', 'cut_inside_packet', 'cut_inside_delimiter', 'byte_at_a_time_cases',
+REQUIRED = ['locally_fired_event_bound_to_the_peer', 'event_relayed_to_another_connection', 'calls_executed_remotely', 'results_received', 'cut_inside_packet', 'cut_inside_delimiter', 'byte_at_a_time_cases',
             'packet_over_4k', 'inflight_ge2', 'server_to_client_calls', 'client_to_server_calls', 'send_firewall_rejections',
             'recv_firewall_rejections', 'firewall_consulted', 'receiver_raised', 'receiver_generator', 'hostile_packets',
             'hostile_meta_keys_tried', 'hostile_unhashable_channels', 'hostile_truncated', 'hostile_wrong_type', 'hostile_deep_nesting',
@@ -157,6 +157,15 @@ def classes():
             args = list(event.args)
             kwargs = dict(event.kwargs)
             w.log.append(('exec', self.vt.tid, self.tag, name, canon(args), canon(kwargs), b))
+            if b == 'relay':
+                # a node that relays: the hub passes the very event it is handling (which arrived over connection 0) on to the peer of
+                # connection 1 and waits for it; everywhere else the event is simply answered
+                if self.vt.hub and len(self.vt.protos) >= 2 and getattr(event, 'node_sock', None) is self.vt.socks[0] \
+                        and not getattr(event, '_vq7_relayed', False):
+                    event._vq7_relayed = True
+                    w.marks.add('event_relayed_to_another_connection')
+                    return self._vq7_relay(event)
+                b = 'ret'
             if b == 'ret':
                 return {'r': name, 't': self.tag, 'd': digest(args, kwargs)}
             if b == 'echo':
@@ -168,6 +177,9 @@ def classes():
             if b in ('gen', 'genboom'):
                 return self._vq7_gen(name, args, kwargs, b)
             return None
+
+        def _vq7_relay(self, event):
+            yield self.call(Event.create('vq7_topeer', event, 1), 'snd')
 
         def _vq7_gen(self, name, args, kwargs, b):
             w = self.vt.world
@@ -235,6 +247,10 @@ def classes():
                 else:
                     w.marks.add('locally_fired_event_bound_to_the_peer')
                     w.resumed(idx, w.promises[idx], ev)
+
+        @handler('vq7_topeer')
+        def _vq7_topeer(self, ev, k):
+            return self.vt.protos[k].send(ev)
 
         @handler('vq7_nores')
         def _vq7_nores(self, idx):
@@ -616,7 +632,7 @@ def expected_result(call, behaviour, tags):
     d = digest(call['args'], call['kwargs'])
     vals = []
     for t in tags:
-        if b == 'ret':
+        if b in ('ret', 'relay'):
             vals.append({'r': call['name'], 't': t, 'd': d})
         elif b == 'echo':
             vals.append({'a': call['args'], 'k': call['kwargs'], 't': t})
@@ -1384,6 +1400,12 @@ def gen_calls(rng, hot_rate=0.15):
                     f['recv'] = gen_pred(rng, list(behaviour))
                 fw[side] = f
         case['fw'] = fw
+    if case.get('topology') == 'hub' and 'fw' not in case:
+        # the hub relays what peer s0 sends to its 'app' channel on to peer s1
+        for name in list(behaviour):
+            mine = [c for c in calls if c['name'] == name]
+            if behaviour[name] in ('ret', 'echo', 'none') and all(c['from'] == 's0' and c['channels'] == ['app'] for c in mine) and rng.random() < 0.7:
+                behaviour[name] = 'relay'
     return case
 
 
@@ -1593,6 +1615,11 @@ def corpus():
     cs.append(calls_case([call('c0', 'hello', [i], style='bound') for i in range(3)] + [call('c0', 'ping', [9])], {'hello': 'ret', 'ping': 'echo'}, {'c2s': [7], 's2c': [5]}))
     cs.append(calls_case([call('c0', 'hello', [1], style='bound', channels=['app', 'aux'])], {'hello': 'ret'}))
     cs.append(calls_case([call('c0', 'hello', [1], style='bound'), call('c1', 'ping', [2], style='bound')], {'hello': 'ret', 'ping': 'gen'}, conns=2, topology='hub'))
+    # a relaying node: s0 calls the hub, whose handler passes the event on to s1 and waits; the answer of s1 goes back to s0's caller
+    for style in ('direct', 'call'):
+        cs.append(calls_case([call('s0', 'hello', [1, {'k': 2}], style=style)], {'hello': 'relay'}, conns=2, topology='hub'))
+        cs.append(calls_case([call('s0', 'hello', [i], style=style) for i in range(3)] + [call('s1', 'ping', [7]), call('c1', 'x', [8])],
+                             {'hello': 'relay', 'ping': 'ret', 'x': 'echo'}, {'c2s': [7], 's2c': [5]}, conns=3, topology='hub'))
     # remote handler raises (plain and generator)
     cs.append(calls_case([call('c0', 'hello', [1])], {'hello': 'boom'}))
     cs.append(calls_case([call('c0', 'hello', [1], style='call', failure=True)], {'hello': 'genboom'}))
